@@ -20,7 +20,17 @@ Ops (JSON lists), names are small integers (0 = the logged-in user, 1..4 remote 
                          (what client.py:367-373 does is done by a listener registered after the manager's)
   ["pp", [n, ...]]       server sends PotentialParents; every entry is reachable, so one outgoing distributed
                          connection per entry is established (PeerInitializedEvent requested=True), in list order
+  ["ppe", n, [["level", v] | ["root", r], ...], delay]
+                         EAGER CANDIDATE: as ["pp", [n]], but the remote end announces the listed branch values by itself,
+                         `delay` loop iterations after it has read the library's PeerInit (-1: at accept, before it) —
+                         i.e. while the library's connection request may still be wrapping up (direct attempt done,
+                         indirect attempt being cancelled). For the model this is `pp n` followed by the announcements in
+                         order (the request task is runtime glue the model does not have)
   ["in", n]              peer n connects to the listening port and sends PeerInit(n, 'D') (requested=False)
+  ["ine", n, [["level", v] | ["root", r], ...]]
+                         the same, and the peer writes the listed announcements right behind its PeerInit (they are in the
+                         socket before the library has looked at the connection); for the model: `in n`, then the
+                         announcements in order
   ["level", c, v]        the remote end of connection c sends DistributedBranchLevel(v)
   ["root", c, n]         ... DistributedBranchRoot(name n)
   ["close", c]           the remote end of connection c closes its socket
@@ -100,6 +110,18 @@ class _Remote:
         self.lib_conn = None          # the library's PeerConnection object (found after initialisation)
         self.frames: list = []        # decoded DistributedMessage requests received from the library
         self.task = None
+        self.eager = None             # (frames, delay): written by the remote end on its own, see op `ppe`
+
+    async def announce_eagerly(self):
+        frames, delay = self.eager
+        self.eager = None
+        for _ in range(max(0, delay)):
+            await asyncio.sleep(0)
+        if not self.writer._closed:
+            for f in frames:
+                if self.writer._closed:
+                    break
+                self.writer.write(f)
 
     async def pump(self):
         from vlib.simserver import read_frame
@@ -113,6 +135,9 @@ class _Remote:
                 first = False
                 try:
                     m.PeerInitializationMessage.deserialize_request(frame)
+                    if self.eager is not None:
+                        # (as its own task: what the library writes meanwhile is still read and recorded)
+                        self.eager_task = asyncio.ensure_future(self.announce_eagerly())
                     continue
                 except Exception:
                     pass
@@ -260,11 +285,17 @@ async def _scenario(loop, case: dict):
 
 
         # outgoing distributed connections: one endpoint per peer name
+        eager: dict = {}        # peer name -> [(frames, delay)] for the next outgoing connections to it (op `ppe`)
+
         def make_out_handler(n):
             async def handler(reader, writer):
                 r = _Remote(len(w.remotes), n, True)
                 r.reader, r.writer = reader, writer
                 w.remotes.append(r)
+                if eager.get(n):
+                    r.eager = eager[n].pop(0)
+                    if r.eager[1] < 0:               # at once, before the library's PeerInit has been read
+                        await r.announce_eagerly()
                 r.task = asyncio.ensure_future(r.pump())
             return handler
         for n in range(1, 9):
@@ -445,12 +476,18 @@ async def _scenario(loop, case: dict):
                 else:
                     wr.fail_after = len(wr.sent)
                 return 'ok'
-            if k in ('pp', 'minspeed', 'ratio', 'stats', 'reset'):
+            if k in ('pp', 'ppe', 'minspeed', 'ratio', 'stats', 'reset'):
                 if state['session'] is None or not server_up():
                     return 'no-server'
                 if strict and not reader_idle(server.sessions[-1][1].peer):
                     return 'busy'
-                if k == 'pp':
+                if k == 'ppe':
+                    _, n, anns, delay = op
+                    frames = [(m.DistributedBranchLevel.Request(a[1]) if a[0] == 'level'
+                               else m.DistributedBranchRoot.Request(uname(a[1]))).serialize() for a in anns]
+                    eager.setdefault(n, []).append((frames, delay))
+                    msg = m.PotentialParents.Response([PotentialParent(uname(n), peer_addr(n)[0], peer_addr(n)[1])])
+                elif k == 'pp':
                     msg = m.PotentialParents.Response(
                         [PotentialParent(uname(n), peer_addr(n)[0], peer_addr(n)[1]) for n in op[1]])
                 elif k == 'minspeed':
@@ -463,7 +500,7 @@ async def _scenario(loop, case: dict):
                     msg = m.ResetDistributed.Response()
                 server.send(msg)
                 return 'ok'
-            if k == 'in':
+            if k in ('in', 'ine'):
                 n = op[1]
                 rd, wr = await fn.connect_in(LISTEN_PORT, remote_addr=(peer_addr(n)[0], 40000 + len(w.remotes)))
                 if state.get('gate_next_in') is not None:
@@ -474,6 +511,10 @@ async def _scenario(loop, case: dict):
                 w.remotes.append(r)
                 r.task = asyncio.ensure_future(r.pump())
                 wr.write(m.PeerInit.Request(uname(n), PeerConnectionType.DISTRIBUTED, 0).serialize())
+                if k == 'ine':                      # the peer announces branch values right behind its PeerInit
+                    for a in op[2]:
+                        wr.write((m.DistributedBranchLevel.Request(a[1]) if a[0] == 'level'
+                                  else m.DistributedBranchRoot.Request(uname(a[1]))).serialize())
                 return 'ok'
             if k in ('level', 'root', 'close'):
                 c = op[1]
@@ -643,6 +684,8 @@ def _monitor(case: dict, trace: list) -> list[Violation]:
         # --- admission
         new = [(c, n) for c, n in zip(s['children'], s['children_names']) if c not in b['children']]
         kinds = {x[0] for x in subs}
+        if 'ine' in kinds:
+            kinds = kinds | {'in'}
         if new:
             if 'in' not in kinds:
                 add('C13-child-admission', f'child {new} appeared without an incoming connection', k)
@@ -745,6 +788,78 @@ for _r in RATIOS:
             assert int(_s / ((_r / 10) * 1024)) == _s * 10 // (_r * 1024), (_r, _s)   # float == exact on this grid
 LEVELS = [0, 0, 1, 1, 2, 3, 7]
 
+# ---- the whole wire domain of the server parameters (uint32 each), not only the values the real server sends
+U32 = 2 ** 32 - 1
+
+
+def _doc_max(speed: int, ratio: int) -> int:
+    """docs/source/SOULSEEK.rst, "Max children": divider = (ratio / 10) * 1024, max = floor(avg_speed / divider),
+    over the rationals (ratio != 0)"""
+    return speed * 10 // (ratio * 1024)
+
+
+def _float_exact(speed: int, ratio: int) -> bool:
+    """the documented expression evaluated in binary floating point gives the exact floor for this pair (it can come
+    out one lower when avg_speed / divider is a whole number, e.g. ratio 11, speed 16896: 14 instead of 15 — never higher)"""
+    return ratio == 0 or int(speed / ((ratio / 10) * 1024)) == _doc_max(speed, ratio)
+
+
+def _wire_ratio(rng: random.Random) -> int:
+    x = rng.random()
+    if x < 0.40:
+        return rng.randint(11, 99)                         # mostly not a multiple of 10
+    if x < 0.52:
+        return rng.randint(1, 10)
+    if x < 0.64:
+        return rng.choice([10, 20, 30, 40, 50, 60, 100, 150, 250, 1000])
+    if x < 0.80:
+        return rng.choice([rng.randint(100, 1000), rng.randint(1000, 100000), rng.randint(100000, 2 ** 24)])
+    if x < 0.96:
+        return rng.choice([U32, U32 - 1, 2 ** 31, 2 ** 31 - 1, 2 ** 16, 2 ** 16 + 1, 65535, 2 ** 24 + 1,
+                           rng.randint(2 ** 24, U32)])
+    return 0
+
+
+def _wire_speed_for(rng: random.Random, ratio: int, k: int):
+    """an upload speed on the wire for which the documented maximum is exactly k (None when there is none): the lowest,
+    the highest or one in between"""
+    if ratio == 0:
+        return rng.choice([0, 1024, 5120, U32])
+    lo = -(-k * ratio * 1024 // 10)
+    hi = min(-(-(k + 1) * ratio * 1024 // 10) - 1, U32)
+    if lo > hi:
+        return None
+    assert _doc_max(lo, ratio) == k == _doc_max(hi, ratio) and (lo == 0 or _doc_max(lo - 1, ratio) == k - 1)
+    return rng.choice([lo, lo, hi, hi, rng.randint(lo, hi)])
+
+
+def _wire_speed(rng: random.Random) -> int:
+    return rng.choice([rng.randint(0, U32), rng.randint(0, 2 ** 20), rng.randint(0, 20000), U32, U32 - 1, 2 ** 31,
+                       1024 * rng.randint(0, 64), max(0, 1024 * rng.randint(0, 64) - 1)])
+
+
+def _wire_minspeed(rng: random.Random, speed=None) -> int:
+    if speed is not None and rng.random() < 0.6:           # around the acceptance threshold of this speed
+        return max(0, min(U32, speed // 1024 + rng.choice([0, 0, 1, 1, -1])))
+    return rng.choice([0, 1, 2, rng.randint(0, 100), rng.randint(0, U32), U32, 2 ** 22, 2 ** 22 - 1, 2 ** 22 + 1])
+
+
+def _float_inexact_case(case) -> bool:
+    """some statistics of the case may meet a (speed, ratio) pair on which floating point and the exact floor differ
+    (judged conservatively: every speed of the case against every ratio of the case and the default)"""
+    speeds, ratios = set(), {None}
+    for op in case['ops']:
+        for o in _flat_ops(op):
+            if o[0] == 'stats':
+                speeds.add(o[2])
+            elif o[0] == 'ratio':
+                ratios.add(o[1])
+    if not speeds:
+        return False
+    from aioslsk import constants as _k
+    rs = {int(_k.DEFAULT_PARENT_SPEED_RATIO) if r is None else r for r in ratios}
+    return any(not _float_exact(sp, r) for sp in speeds for r in rs)
+
 
 def _gen_case(rng: random.Random, kind: Optional[str] = None) -> dict:
     npeers = rng.choice([3, 4])
@@ -752,7 +867,7 @@ def _gen_case(rng: random.Random, kind: Optional[str] = None) -> dict:
     roots = peers + [5, 6, 6, 5, ME] if rng.random() < 0.25 else peers + [5, 6, 6, 5]
     kind = kind or rng.choice(['random', 'random', 'parent', 'parent', 'child', 'child', 'session', 'limits',
                                'overflow', 'burst', 'gate', 'gate', 'gate', 'sgate', 'sgate', 'sgate', 'cfault',
-                               'cfault', 'cfault', 'reparent'])
+                               'cfault', 'cfault', 'reparent', 'wire', 'wire', 'wire', 'eager', 'eager'])
     ops: list = []
     nconn = 0
     up = False
@@ -765,10 +880,12 @@ def _gen_case(rng: random.Random, kind: Optional[str] = None) -> dict:
                 up = True
             elif o[0] == 'lost':
                 up = False
-            elif o[0] == 'in':
+            elif o[0] in ('in', 'ine'):
                 nconn += 1
             elif o[0] == 'pp' and up:
                 nconn += len(o[1])
+            elif o[0] == 'ppe' and up:
+                nconn += 1
 
     def conn():
         if nconn == 0 or rng.random() < 0.04:
@@ -795,11 +912,12 @@ def _gen_case(rng: random.Random, kind: Optional[str] = None) -> dict:
         if x < 0.74:
             return ['close', conn()]
         if x < 0.80:
-            return ['stats', ME if rng.random() < 0.9 else rng.choice(peers), rng.choice(SPEEDS)]
+            return ['stats', ME if rng.random() < 0.9 else rng.choice(peers),
+                    rng.choice(SPEEDS) if rng.random() < 0.7 else _wire_speed(rng)]
         if x < 0.84:
-            return ['ratio', rng.choice(RATIOS)]
+            return ['ratio', rng.choice(RATIOS) if rng.random() < 0.6 else _wire_ratio(rng)]
         if x < 0.87:
-            return ['minspeed', rng.choice(MINSPEEDS)]
+            return ['minspeed', rng.choice(MINSPEEDS) if rng.random() < 0.7 else _wire_minspeed(rng)]
         if x < 0.91:
             return ['reset']
         if x < 0.96:
@@ -851,11 +969,113 @@ def _gen_case(rng: random.Random, kind: Optional[str] = None) -> dict:
             do(rng.choice([['in', rng.choice(peers)], ['close', conn()], ['level', conn(), rng.choice(LEVELS)]]))
         do(['session'])
     elif kind == 'limits':
+        wire = rng.random() < 0.4
         for _ in range(rng.choice([1, 2, 3])):
-            do(rng.choice([['ratio', rng.choice(RATIOS)], ['minspeed', rng.choice(MINSPEEDS)],
-                           ['stats', ME, rng.choice(SPEEDS)]]))
-        do(['stats', ME, rng.choice(SPEEDS)])
+            do(rng.choice([['ratio', _wire_ratio(rng) if wire else rng.choice(RATIOS)],
+                           ['minspeed', _wire_minspeed(rng) if wire else rng.choice(MINSPEEDS)],
+                           ['stats', ME, _wire_speed(rng) if wire else rng.choice(SPEEDS)]]))
+        do(['stats', ME, _wire_speed(rng) if wire else rng.choice(SPEEDS)])
         for _ in range(rng.choice([1, 2, 3])):
+            do(['in', rng.choice(peers)])
+    elif kind == 'wire':
+        # server parameters over the whole wire domain (any uint32, in particular ratios that are not multiples of 10):
+        # the speed is chosen so that the DOCUMENTED maximum is a small k (at the lowest / highest speed that gives k),
+        # then more peers than that connect; optionally the minimum speed sits at the acceptance threshold, the limit
+        # is replaced by another one, a child leaves and the slot is taken again
+        ratio = _wire_ratio(rng)
+        k = rng.choice([0, 1, 1, 2, 2, 3])
+        speed = _wire_speed_for(rng, ratio, k)
+        if speed is None:
+            k = 0
+            speed = _wire_speed_for(rng, ratio, 0)
+        pre = [['ratio', ratio]]
+        if rng.random() < 0.45:
+            pre.append(['minspeed', _wire_minspeed(rng, speed)])
+            rng.shuffle(pre)
+        if rng.random() < 0.15:
+            pre = pre[1:]                                   # (one of them not sent: the default applies)
+        for o in pre:
+            do(o)
+        do(['stats', ME, speed])
+        for _ in range(min(k + rng.choice([1, 1, 2]), 5)):
+            do(['in', rng.choice(peers)])
+        x = rng.random()
+        if x < 0.3 and nconn:
+            do(['close', rng.randrange(nconn)])
+            do(['in', rng.choice(peers)])
+            do(['in', rng.choice(peers)])
+        elif x < 0.6:
+            k2 = rng.choice([0, 1, 2, 3, 4])
+            r2 = ratio if rng.random() < 0.5 else _wire_ratio(rng)
+            sp2 = _wire_speed_for(rng, r2, k2)
+            if sp2 is not None:
+                if r2 != ratio:
+                    do(['ratio', r2])
+                do(['stats', ME, sp2])
+                for _ in range(rng.choice([1, 2, 3])):
+                    do(['in', rng.choice(peers)])
+    elif kind == 'eager':
+        # a proposed parent announces itself as soon as the connection stands — while the library's connection request
+        # is still wrapping up — with children present, other candidates pending, re-announcements and losses after it
+        others = [r for r in roots if r != ME]
+
+        def eager_op(n, complete=True):
+            lv = rng.choice([0, 1, 1, 2, 3])
+            rt = rng.choice([r for r in others if r != n] or others)
+            if complete:
+                anns = rng.choice([[['level', lv], ['root', rt]], [['root', rt], ['level', lv]],
+                                   [['level', lv], ['root', rt]], [['level', 0]],
+                                   [['level', lv], ['root', rt], ['level', lv + 2]],
+                                   [['root', rt], ['level', lv], ['root', rng.choice(others)]]])
+            else:
+                anns = rng.choice([[['level', rng.choice([1, 2, 3])]], [['root', rt]]])
+            return ['ppe', n, anns, rng.choice([-1, 0, 0, 1, 1, 2, 2, 3, 4, 6])]
+
+        for _ in range(rng.choice([0, 1, 1, 2])):
+            do(['in', rng.choice(peers)])
+        a, b = rng.sample(peers, 2)
+        variant = rng.choice(['one', 'one', 'one', 'after-candidate', 'two', 'incomplete', 'replace', 'together',
+                              'child', 'child'])
+        if variant == 'after-candidate':
+            c0 = nconn
+            do(['pp', [b]])                                  # a silent (or half-announced) candidate is pending
+            if rng.random() < 0.5:
+                do(rng.choice([['root', c0, rng.choice(others)], ['level', c0, 2]]))
+            do(eager_op(a))
+        elif variant == 'two':
+            do(eager_op(a))
+            do(eager_op(b))                                  # arrives when there is a parent: closed again
+        elif variant == 'incomplete':
+            c0 = nconn
+            do(eager_op(a, complete=False))
+            do(rng.choice([['level', c0, rng.choice([1, 2])], ['root', c0, rng.choice(others)]]))
+            do(rng.choice([['level', c0, rng.choice([1, 2])], ['root', c0, rng.choice(others)]]))
+        elif variant == 'replace':
+            c0 = nconn
+            do(eager_op(a))
+            do(rng.choice([['close', c0], ['reset']]))
+            do(eager_op(rng.choice([a, b])))
+        elif variant == 'child':
+            # an incoming connection announces a position right behind its PeerInit (a would-be child, or a proposed
+            # parent that connects by itself), with or without a parent in place
+            if rng.random() < 0.4:
+                do(eager_op(a))
+            if rng.random() < 0.4:
+                do(['pp', [b]])
+            n = rng.choice([b, b, a, rng.choice(peers)])
+            do(['ine', n, eager_op(n, complete=rng.random() < 0.7)[2]])
+            if rng.random() < 0.5:
+                do(['ine', rng.choice(peers), eager_op(n, complete=rng.random() < 0.5)[2]])
+        elif variant == 'together':
+            # two eager candidates proposed back to back (monitor only: which one wins depends on the delays)
+            do(['burst', [eager_op(a), eager_op(b)]])
+        else:
+            do(eager_op(a))
+        c1 = nconn - 1
+        if rng.random() < 0.6 and nconn:
+            for o in announce(c1, rng.choice(['l', 'r', 'lr'])):          # the (new) parent announces again
+                do(o)
+        if rng.random() < 0.4:
             do(['in', rng.choice(peers)])
     elif kind == 'overflow':
         first = rng.choice(peers)
@@ -1089,22 +1309,27 @@ def _gen_case(rng: random.Random, kind: Optional[str] = None) -> dict:
                                   'unset', 'unset', 'reset', 'ratio', 'two-handlers', 'random', 'session-init'])
             if variant.startswith('limit'):
                 k = rng.choice([0, 1, 1, 2])
-                ratio = rng.choice([None, None, 10, 100])
-                unit = 5120 if ratio is None else ratio * 1024 // 10    # speed per child slot
+                ratio = rng.choice([None, None, 10, 100, 15, 25, rng.randint(11, 99), rng.randint(101, 999)])
+
+                def slots(j):
+                    """a speed for which the documented maximum is j (the lowest such speed most of the time)"""
+                    r = 50 if ratio is None else ratio
+                    lo = -(-j * r * 1024 // 10)
+                    return lo if rng.random() < 0.7 else -(-(j + 1) * r * 1024 // 10) - 1
                 if ratio is not None:
                     do(['ratio', ratio])
                 if variant == 'limit-raise':
-                    do(['stats', ME, rng.choice([0, unit * k])])          # off, or full with k children
+                    do(['stats', ME, rng.choice([0, slots(k)])])          # off, or full with k children
                     if rng.random() < 0.5 and k:
-                        do(['stats', ME, unit * k]); add_kids(k); 
-                    trig = ['stats', ME, unit * (k + rng.choice([1, 2]))]
+                        do(['stats', ME, slots(k)]); add_kids(k)
+                    trig = ['stats', ME, slots(k + rng.choice([1, 2]))]
                 else:
-                    do(['stats', ME, unit * (k + 1)])
+                    do(['stats', ME, slots(k + 1)])
                     add_kids(rng.choice([k, k, k + 1]))
                     if rng.random() < 0.3:
                         candidate(rng.random() < 0.5)
                     trig = (['stats', ME, rng.choice([0, 1023])] if variant == 'limit-off'
-                            else ['stats', ME, unit * rng.randint(0, k)])
+                            else ['stats', ME, slots(rng.randint(0, k))])
                 do(['sblock']); st['sblocked'] = True
                 do(trig); st['srv_used'] = True
                 do(['in', rng.choice(knames)])
@@ -1241,7 +1466,7 @@ def _gen_case(rng: random.Random, kind: Optional[str] = None) -> dict:
             do(o)
         if rng.random() < 0.4:
             do(rng.choice([['level', pc2, lv2], ['level', pc2, rng.choice([1, 5])], ['close', pc2]]))
-    limit = 10 if kind != 'overflow' else 12
+    limit = 10 if kind not in ('overflow', 'wire') else 12
     while len(ops) < limit and (len(ops) < 4 or rng.random() < 0.8):
         do(rand_op())
     return {'ops': ops[:limit], 'kind': kind, 'npeers': npeers}
@@ -1256,6 +1481,8 @@ def _model_lines(case: dict) -> list[str]:
     for op in case['ops']:
         if op[0] == 'pp':
             out.append('pp ' + ' '.join(str(n) for n in op[1]))
+        elif op[0] in ('ppe', 'ine'):
+            out.append(f'{op[0]} {op[1]} ' + ' '.join(('L' if a[0] == 'level' else 'R') + str(a[1]) for a in op[2]))
         else:
             out.append(' '.join(str(x) for x in op))
     return out
@@ -1268,7 +1495,7 @@ def _has_burst(case) -> bool:
     """monitor-only cases: burst / gate (the model has no composite ops), and cases with held-back sockets that
     are not `strict` (events are issued to sources that are inside a suspended handler)"""
     return any(op[0] in ('burst', 'gate') or (op[0] in PRIMS and not case.get('strict')) or op[1:] == ['blocked']
-               for op in case['ops'])
+               for op in case['ops']) or _float_inexact_case(case)
 
 
 def _eval_case(case):
@@ -1299,6 +1526,19 @@ WITNESSES = {
     'gate-close-during-send': {'ops': [['session'], ['gate', 'new', ['in', 4], [['close', 0]]]], 'kind': 'witness'},
     'parent-connects-as-child': {'ops': [['session'], ['pp', [1]], ['level', 0, 0]] + [['pp', [2, 2, 2, 2]]] * 5 +
                                  [['in', 1]], 'kind': 'witness'},
+    # server parameters outside the values the real server sends (ratio not a multiple of 10: divider 1536 / 2560)
+    'wire-ratio-15-one-slot': {'ops': [['session'], ['ratio', 15], ['stats', 0, 2048], ['in', 1], ['in', 2]],
+                               'kind': 'witness'},
+    'wire-ratio-25-eight-slots': {'ops': [['session'], ['ratio', 25], ['stats', 0, 20480]] +
+                                  [['in', 1 + i % 3] for i in range(9)], 'kind': 'witness'},
+    'wire-minspeed-threshold': {'ops': [['session'], ['ratio', 1], ['minspeed', 98], ['stats', 0, 100000], ['in', 1],
+                                        ['minspeed', 97], ['stats', 0, 100000], ['in', 2]], 'kind': 'witness'},
+    # a proposed parent announces itself while the connection request is still wrapping up (every delay)
+    **{f'eager-candidate-delay{d}': {'ops': [['session'], ['in', 2], ['ppe', 1, [['level', 1], ['root', 5]], d],
+                                             ['level', 1, 3]], 'kind': 'witness'} for d in (-1, 0, 1, 2, 3)},
+    'eager-two-candidates-at-once': {'ops': [['session'], ['in', 3],
+                                             ['burst', [['ppe', 1, [['level', 0]], 2], ['ppe', 2, [['level', 0]], 2]]],
+                                             ['in', 3]], 'kind': 'witness'},
     # suspended sends to the server / per-child write outcomes (compared with the model step by step)
     'sgate-acceptance-off-during-send': {'ops': [['session'], ['sblock'], ['stats', 0, 0], ['in', 2], ['srelease']],
                                          'kind': 'witness', 'strict': True},
@@ -1326,13 +1566,22 @@ class C13(Property):
     id = 'C13'
     props_module = 'AioslskVerif.Props.C13'
     driver_module = 'AioslskVerif.Driver.C13'
-    rule = ('op sequences of length <= 10 (12 for the cache-overflow family, <= 18 ops incl. socket controls for the '
-            'suspended-send / write-fault families) over 3..4 remote peers drawn from {session, lost, pp(names), in(name), '
+    rule = ('op sequences of length <= 10 (12 for the cache-overflow and wire-domain families, <= 18 ops incl. socket '
+            'controls for the suspended-send / write-fault families) over 3..4 remote peers drawn from {session, lost, '
+            'pp(names), ppe(name, announcements, delay), in(name), '
             'level(conn,v), root(conn,name), close(conn), minspeed, ratio, stats, reset, burst} plus the socket controls '
             '{sblock, srelease, cblock(conn), crelease(conn), arm(conn)}, generated state-directed from VERIF_SEED '
             '(families: parent flow with both announcement orders and re-announcement, child flow incl. a child '
             'announcing a position, session loss, admission limits, cache overflow, bursts, "reparent": a second parent '
-            'at the same / another place after the first was lost, with children; "gate": drain() of a chosen '
+            'at the same / another place after the first was lost, with children; "wire": ParentSpeedRatio / '
+            'ParentMinSpeed / upload speed over the whole uint32 domain of the wire (ratios that are not multiples of '
+            '10, 1..9, huge, 0; the speed at the lowest / highest value for which the DOCUMENTED maximum is a small k; '
+            'the minimum speed at the acceptance threshold of that speed), then more peers than k connect, a child '
+            'leaves and the slot is taken again, the limit is replaced; the same values are mixed into the other '
+            'families; "eager": a proposed parent announces its branch values by itself -1..6 loop iterations after '
+            'it has read our PeerInit — while the library\'s connection request is still wrapping up — alone, after a '
+            'pending candidate, as second parent, incompletely, after a loss, two at once [monitor only]; '
+            '"gate": drain() of a chosen '
             'socket blocks while 1-2 further events are handled [monitor only]; "sgate": the SERVER socket stops '
             'draining, a handler that sends to the server (statistics lowering / raising / switching off the child '
             'limit, ratio / min-speed update, new parent, parent re-announcing, parent lost, reset, two handlers at '
@@ -1345,7 +1594,11 @@ class C13(Property):
             'the client had a parent or a child; distinct = distinct canonical op list')
     assumptions = [
         'settings.debug.search_for_parent is True (default); peer.connect_mode default (race); every proposed '
-        'potential parent is reachable (direct connection succeeds)',
+        'potential parent is reachable (direct connection succeeds); the indirect attempt of a connection request '
+        'gets no answer (it is cancelled when the direct one has succeeded)',
+        'an eager candidate (op ppe) is, for the model, `pp` followed by its announcements in order: the connection '
+        'request task and its cancellation are runtime glue (fix C13-prompt-parent-request-kept makes the '
+        'implementation agree for every delay)',
         'ops are separated by quiescence of the event loop. A handler is atomic in the model except where it awaits '
         'a send to the server (Model/DistSusp.lean: the frames are written at once, the rest of the handler is a '
         'continuation that runs when the server socket drains, first-in first-out); sends to children are '
@@ -1354,8 +1607,12 @@ class C13(Property):
         'the new child) and back-to-back delivery (burst) are exercised on the implementation with the monitor only',
         'a blocked drain() returns normally when released (also when the socket was closed meanwhile); virtual time '
         'does not advance while sockets are held back (the 10 s write time-out does not fire)',
-        'max_children = floor(speed*10/(ratio*1024)) over exact integers; generated (speed, ratio) pairs are '
-        'restricted to a grid on which the float expression of the code agrees (asserted at import)',
+        'max_children = floor(speed*10/(ratio*1024)) over exact integers, for every uint32 speed and ratio '
+        '(C13_max_children_documented); the monitor judges admissions against this documented value. The code '
+        'evaluates the same expression in binary floating point, which can come out ONE LOWER (never higher) when '
+        'speed*10/(ratio*1024) is a whole number (e.g. ratio 11, speed 16896: 14 instead of 15; no pair with a maximum '
+        'below 9 for ratios < 3000): a case that contains such a (speed, ratio) pair is run with the monitor only '
+        '(fewer admissions than the documented maximum allows do not violate the property)',
         'branch levels < 2^32-1 (level+1 must be serialisable as uint32)',
         'truthfulness is demanded while a session exists (own name = session user); SessionDestroyed is issued by '
         'a listener doing what client.py:367-373 does. The server must have been told the derived position at every '
@@ -1378,7 +1635,9 @@ class C13(Property):
                 'Exercised, not modelled: Network/PeerConnection/ServerConnection/ListeningConnection, EventBus, '
                 'asyncio scheduling inside a handler apart from the server sends, float arithmetic of '
                 '_calculate_max_children, '
-                'potential-parent connection tasks and their cancellation, search request forwarding (C14), '
+                'potential-parent connection tasks and their cancellation (exercised against announcements that arrive '
+                'while a request is wrapping up: op ppe, end state compared with the model), search request '
+                'forwarding (C14), '
                 'DistributedChildDepth')
 
     def regenerate(self):
@@ -1417,6 +1676,8 @@ class C13(Property):
         for i, c in enumerate(cases):
             res.evaluations += 1
             res.count('kind:' + c['kind'])
+            if _float_inexact_case(c):
+                res.count('case:float-inexact-pair (monitor only)')
             res.count('ops', len(c['ops']))
             for op in c['ops']:
                 for o in _flat_ops(op):
@@ -1448,6 +1709,18 @@ class C13(Property):
                         res.count('event:child-announces')
                     if s['parent_root'] == ME and s['parent'] is not None:
                         res.count('state:degenerate-root')
+                    if op[0] == 'ppe' and s['status'] == 'ok':
+                        res.count('event:eager-candidate-adopted' if prev['parent'] is None and s['parent'] is not None
+                                  else 'event:eager-candidate-not-adopted')
+                    if op[0] == 'stats' and s['status'] == 'ok' and op[1] == ME and s['session']:
+                        r_ = s['ratio']
+                        res.count('stats:default-ratio' if r_ is None else 'stats:ratio-0' if r_ == 0 else
+                                  'stats:ratio-multiple-of-10' if r_ % 10 == 0 else 'stats:ratio-not-multiple-of-10')
+                        if r_ is not None and r_ >= 2 ** 16 or op[2] >= 2 ** 24:
+                            res.count('stats:large-wire-values')
+                    if op[0] == 'in' and s['status'] == 'ok' and len(s['children']) == len(prev['children']) \
+                            and prev['accept'] and len(prev['children']) == prev['max']:
+                        res.count('event:incoming-refused-at-maximum')
                 prev = s
             for s in tr:
                 if s['parent'] is not None:
